@@ -135,6 +135,11 @@ def drive_one(case, work):
         except Exception as e:  # noqa: BLE001
             return {"error": type(e).__name__, "msg": str(e)[:200], "inputs_after": [_snap(o) for o in ins], "inputs_before": before}
         res = {"out": _snap(out), "inputs_before": before, "inputs_after": [_snap(o) for o in ins]}
+        out_uid, in_uids = out.uid, [o.uid for o in ins]
+    # what a later reader of the file sees (merge results must be stored, inputs must be untouched on file too)
+    with Workspace(f"{work}/c16.geoh5", mode="r") as ws2:
+        res["out_reopened"] = _snap(ws2.get_entity(out_uid)[0])
+        res["inputs_reopened"] = [_snap(ws2.get_entity(u)[0]) for u in in_uids]
     import os
     os.remove(f"{work}/c16.geoh5")
     return res
@@ -164,10 +169,10 @@ def _name_id(name):
     return None
 
 
-def case_term(case, obs):
-    if "out" not in obs:
+def case_term(case, obs, which="out"):
+    if which not in obs:
         return "false"  # the model never refuses a well-formed merge
-    o = obs["out"]
+    o = obs[which]
     verts = o["verts"] or []
     if any(not float(x).is_integer() for p in verts for x in p):
         return "false"
@@ -178,7 +183,11 @@ def case_term(case, obs):
             return "false"
         ch.append("(%s, %s, %s)" % (cnat(nid), cbool(c["cell"]), _vals_term(c["vals"])))
     ins = clist(_inp_term(s) for s in case["inputs"])
-    return "agree %s %s %s %s" % (ins, clist(_pt(p) for p in verts), clist(clist(cnat(v) for v in c) for c in o["cells"]), clist(ch))
+    live = "%s %s %s %s %s" % ("agree" if which == "out" else "agree_stored", ins, clist(_pt(p) for p in verts), clist(clist(cnat(v) for v in c) for c in o["cells"]), clist(ch))
+    if which == "out" and "out_reopened" in obs:
+        stored = case_term(case, obs, "out_reopened")
+        return f"({live}) && ({stored})"
+    return live
 
 
 def model_term(case):
@@ -242,8 +251,13 @@ def oracle(case, obs):
         got = {(c["name"], c["cell"]): c["vals"] for c in out["children"]}
         if len(got) != len(out["children"]) or got != exp:
             fails.append({"key": "data-not-concatenated", "what": f"merged data {got} differ from expected {exp}"})
-    if obs["inputs_before"] != obs["inputs_after"]:
-        fails.append({"key": "inputs-changed", "what": "an input object changed during the merge"})
+    def _canon(sn):
+        return None if sn is None else dict(sn, children=sorted(sn["children"], key=lambda c: (c["name"], c["cell"], str(c["vals"]))))
+
+    if obs["inputs_before"] != obs["inputs_after"] or [_canon(x) for x in obs.get("inputs_reopened", obs["inputs_before"])] != [_canon(x) for x in obs["inputs_before"]]:
+        fails.append({"key": "inputs-changed", "what": "an input object changed during the merge (live or on file)"})
+    if "out_reopened" in obs and _canon(obs["out_reopened"]) != _canon(obs["out"]):
+        fails.append({"key": "merged-object-not-stored", "what": f"re-opened merged object {obs['out_reopened']} differs from the live one {obs['out']}"})
     return fails
 
 
